@@ -1,9 +1,10 @@
 (* "Whenever the verdict is true and the winning region is non-empty,
    constructing the implementation succeeds" (C03), for the TRANSLATED
    Rabin(1) construction.  A winning state lies in some trap y_{k,i} of its
-   own level k; with the memory `_hold` = i it is in neither of the two
-   blocking classes, so the synthesized action allows a step there
-   (RabinNB3.rabin_impl_blocks_only_known): the action is not FALSE. *)
+   own level k; with the memory `_hold` = i it is not in the blocking class
+   (stale persistence index, F12), so the synthesized action allows a step
+   there (RabinNB3.rabin_impl_blocks_only_stale_hold): the action is not
+   FALSE. *)
 From Coq Require Import List Bool Arith Lia.
 Import ListNotations.
 From Omega Require Import L4.Arena L4.ArenaFacts L4.Kleene.
@@ -71,10 +72,9 @@ Lemma rabin_action_nonempty :
 Proof.
   intros [c [x [yb [Hc [Hx [Hyb Hw]]]]]].
   destruct (winning_has_trap c x yb Hw) as [h [Hh Htrap]].
-  pose proof (rabin_impl_blocks_only_known nc nx ny E S holds goals moore plus_one H G fuel
+  pose proof (rabin_impl_blocks_only_stale_hold nc nx ny E S holds goals moore plus_one H G fuel
                 Hf Sh Sg HnG HnH c x yb h 0 Hc Hx Hyb Hgoals ltac:(lia) Hw) as Hnb.
   destruct Hnb as [h' [j' [Hh' [Hj' Hstep]]]].
-  - intros [Hn _]. lia.
   - intros [_ Hf12]. congruence.
   - destruct (beq nc nx (ny * M) A bfalse) eqn:Eb; [|reflexivity]. exfalso.
     rewrite beq_true_iff in Eb.
